@@ -309,6 +309,9 @@ func sliceLeaves(env *core.Env, v ssa.Value, depth int) map[string]bool {
 			}
 		case *ssa.FieldAddr:
 			out["field:"+core.Key(x)] = true
+			if o, f := core.FieldOf(x); o != "" {
+				out["ftype:"+o+"."+f] = true
+			}
 			walk(x.X, d)
 		case *ssa.Field:
 			out["field:"+core.Key(x)] = true
